@@ -4,6 +4,7 @@
 //	match    filepath.Match itself (what schema.ExcludeRealm calls) vs the model of it
 //	exclude  schema.ExcludeRealm / ExcludeSchema on generated realms x pattern lists
 //	skip     SchemaDiff of the sqlite/mysql/postgres DefaultDiff with DiffSkipChanges(K), all K
+//	cli      the real atlas binary: schema inspect/apply --exclude, --env with diff.skip, on SQLite files
 //	gen      writes coq/theories/gen/Gen_SkipKinds.v from the Go sources
 //
 // Every mode writes the model input (cases.txt), the observations of the real
@@ -21,7 +22,7 @@ import (
 )
 
 func main() {
-	mode := flag.String("mode", "match", "match|exclude|skip|gen")
+	mode := flag.String("mode", "match", "match|exclude|skip|cli|gen")
 	tier := flag.String("tier", "quick", "quick|thorough")
 	outDir := flag.String("out", "", "output directory")
 	flag.Parse()
@@ -45,6 +46,8 @@ func main() {
 		runExclude(w, *tier)
 	case "skip":
 		runSkip(w, *tier)
+	case "cli":
+		runCLI(w, *tier)
 	default:
 		fmt.Fprintln(os.Stderr, "unknown mode")
 		os.Exit(2)
